@@ -68,6 +68,10 @@ DefragCalls(s) ==
   \* Defrag is specified only while every nil run is shorter than the limit
   {[op |-> "Defrag", m |-> m] : m \in {x \in {0, 1, 2, 3} : MaxNilRun(s.e, 0, 0) < DefragLimit(x)}}
 
+AuxCalls ==
+       {[op |-> "SetAuxiliary", form |-> f] : f \in {"none", "nil", "map"}}
+  \cup {[op |-> "SetLogger", arg |-> a] : a \in {"stdout", "STDOUT", "int1", "stderr", "StdErr", "int2", "custom", "off", "discard", "int0", "nil", "junk", "int7"}}
+
 SettingCalls(s) ==
        {[op |-> "SetID", v |-> v] : v \in {"", "x", "_random", "_RANDOM", "_addr"}}
   \cup {[op |-> "SetCategory", v |-> v] : v \in {"", "k"}}
@@ -100,6 +104,7 @@ ClosureCalls ==
 
 Calls(s) ==
        (IF "list" \in Fams THEN ListCalls(s) ELSE {})
+  \cup (IF "aux" \in Fams THEN AuxCalls ELSE {})
   \cup (IF "err" \in Fams THEN {[op |-> "SetErr", on |-> TRUE], [op |-> "SetErr", on |-> FALSE]} ELSE {})
   \cup (IF "closures" \in Fams THEN ClosureCalls ELSE {})
   \cup (IF "loglevel" \in Fams THEN LogCalls ELSE {})
